@@ -226,9 +226,12 @@ def fix_unconventional_class_definitions(source: str) -> str:
 
     {{ClassName}}.{{attr}} = {{value}}
     """
-    template = core.compile_template(template)
-    template[0].bases = list
-    template[0].decorator_list = list
+    class_template, *assign_templates = core.compile_template(template)
+    # compile_template caches its result, so the adjustments are made on a copy
+    class_template = copy.copy(class_template)
+    class_template.bases = list
+    class_template.decorator_list = list
+    template = [class_template, *assign_templates]
 
     transaction = 0
     root = core.parse(source)
